@@ -22,7 +22,8 @@ SPEC = dict(
          'consolidation callback (KSI_ASYNC_OPT_CONF_CONSOLIDATE_CALLBACK: called once per push with the pushing endpoint and exactly the values it pushed), the callback on a service that was re-pointed with KSI_AsyncService_setEndpoint after consolidating dominating values from its former endpoint} on the signing (max level, aggregation period, max requests) and extending (max requests, calendar first / last time) HA '
          'service; single-field value alphabets {absent, 0, far below, min-1, min, mid1 < mid2, max, max+1, far above} (duplicates removed), cross-field alphabet {absent, in-range a < b, out-of-range} per field, '
          'extender configurations self-consistent (first <= last). Oracle: field-wise reference fold over the in-range values after every push, and equality of the final result over all orders. '
-         'Endpoint outcome X: a valid reply with the connection closed right after it (other requests waiting on that connection fail).',
+         'Endpoint outcome X: a valid reply with the connection closed right after it (other requests waiting on that connection fail). '
+         'Part (c): a configuration request through 2 and 3 endpoints, every assignment of {configuration, error PDU, never answers} and every order of answering: run() never fails, a configuration is handed to the caller if any endpoint delivered one, the request fails only when every endpoint failed, never more error notices than failed endpoints.',
     bounds=dict(quick='(a) 1-2 endpoints x 1-2 requests and 3 endpoints x 1 request, all 6^n outcome assignments (300 cases); clock jumps per history unbounded for 1 endpoint and 2 endpoints x 1 request, '
                       'at most 1 otherwise; search to the fixpoint (history length bound 40 never reached). (b) 2 endpoints: all single-field multisets of size <= 3 x all endpoint assignments '
                       '(6 field/service pairs), all cross-field multisets of size 2 over the 64 (62 self-consistent extender) configurations',
